@@ -64,6 +64,22 @@ LeqD(a, b)  == ~LessD(b, a)
 EqD(a, b)   == LET w == Max2(Len(a), Len(b)) IN Widen(a, w) = Widen(b, w)
 InD(x, lo, n) == LeqD(lo, x) /\ LessD(SubD(x, lo), n)               \* lo <= x < lo + n  (no wrap-around issue)
 
+(* ---- a sparse byte store seen through a window ---------------------------*)
+\* a write is [a |-> start address (digits), d |-> bytes]; a view is the content of [va, va + Len(view)),
+\* -1 where nothing was written; Over applies one write to a view, ViewAfter a sequence of writes in order
+Over(view, va, w) ==
+  LET n == Len(view)  m == Len(w.d) IN
+  IF LeqD(va, w.a) THEN                                             \* the write starts inside or after the range
+       LET d == SubD(w.a, va) IN
+       IF ~FitsNat(d) \/ ToNat(d) >= n THEN view
+       ELSE LET o == ToNat(d) IN Tup([i \in 1..n |-> IF i > o /\ i <= o + m THEN w.d[i - o] ELSE view[i]])
+  ELSE LET e == SubD(va, w.a) IN                                    \* the write starts before the range
+       IF ~FitsNat(e) \/ ToNat(e) >= m THEN view
+       ELSE LET o == ToNat(e) IN Tup([i \in 1..n |-> IF o + i <= m THEN w.d[o + i] ELSE view[i]])
+RECURSIVE ViewAfter(_, _, _, _)
+ViewAfter(view, va, W, k) == IF k > Len(W) THEN view ELSE ViewAfter(Over(view, va, W[k]), va, W, k + 1)
+Unmapped(n) == Tup([i \in 1..n |-> -1])
+
 (* ---- integer fields in a byte string ------------------------------------*)
 Order == {"LE", "BE"}
 Put(d, order)            == IF order = "BE" THEN Rev(d) ELSE d       \* digits -> bytes as stored
